@@ -69,7 +69,7 @@ IDS = {
 
 def make_coll(spec, rng):
     k, plen, n, dtype = spec['k'], spec['plen'], spec['n'], spec.get('dtype')
-    ks = KmerSpec(k, ('ATGAC' * 2)[:plen])
+    ks = KmerSpec(k, ('ATGAC' * 3)[:plen])
     dt = np.dtype(dtype) if dtype else ks.index_dtype
     top = 4 ** k - 1
     sigs = []
@@ -103,7 +103,7 @@ class RoundTrip(core.Family):
 
     def inputs(self, ctx):
         reps = 1 if ctx.tier == 'quick' else 6
-        self.rule = ('collections with k in {1,4,5,8,9,16,17,32} (all four index widths; values 0, 4^k-1 and random), prefix length 1..8, '
+        self.rule = ('collections with k in {1,4,5,8,9,16,17,32} (all four index widths; values 0, 4^k-1 and random), prefix length 1..13, '
                      '1..6 signatures incl. all-empty and alternating-empty, containers array / list / annotated wrapper of each, ids '
                      '{default, ints, 2^62+i, ASCII, Unicode, with empty string, NumPy U / int32 / uint8 arrays, uint64 arrays with values >= 2^63, int64 arrays with negative values, tuple}, metadata {default, all None, empty strings, Unicode with '
                      'nested extra, ASCII}, compression {none, gzip 0/1/9, lzf}, widened dtype; dump_signatures -> load_signatures; plus '
@@ -126,7 +126,7 @@ class RoundTrip(core.Family):
                                 # signatures with >= 2^14 values at non-first positions (write buffering thresholds), list-like containers too
                                 yield dict(k=k, plen=3, n=4, cont=cont, ids=idk, meta=mk, comp=comps[c % len(comps)], all_empty=False, some_empty=False,
                                            dtype=None, seed=ctx.seed + c, big={1: 16384, 3: 70000} if c % 2 else {2: 16390})
-                            yield dict(k=k, plen=1 + (c % 8), n=1 + (c % 6), cont=cont, ids=idk, meta=mk, comp=comps[c % len(comps)],
+                            yield dict(k=k, plen=1 + (c % 13), n=1 + (c % 6), cont=cont, ids=idk, meta=mk, comp=comps[c % len(comps)],
                                        all_empty=(c % 11 == 0), some_empty=(c % 3 == 0),
                                        dtype=('u8' if c % 7 == 0 else 'i8' if c % 13 == 0 and k <= 16 else None), seed=ctx.seed + c)
 
